@@ -26,6 +26,7 @@ type c16case struct {
 	versioned bool
 	mux       string // "\x00" unset
 	versions  string // PLUGIN_PROTOCOL_VERSIONS; "" = the default "1,2", "\x00" = unset
+	slowInit  bool   // the plugin's registration hook takes 5.5 s (gRPC only)
 }
 
 func (c c16case) String() string {
@@ -38,6 +39,9 @@ func (c c16case) String() string {
 	s := fmt.Sprintf("cookie=%s configured{key=%q,value=%q} %s tls=%s versioned=%v PLUGIN_MULTIPLEX_GRPC=%s", q(c.cookie), c.cfgKey, c.cfgVal, c.proto, c.tls, c.versioned, q(c.mux))
 	if c.versions != "" {
 		s += " PLUGIN_PROTOCOL_VERSIONS=" + q(strings.TrimPrefix(c.versions, "="))
+	}
+	if c.slowInit {
+		s += " slow-init(5.5s)"
 	}
 	return s
 }
@@ -55,7 +59,7 @@ func TestC16(t *testing.T) {
 				for _, tl := range []string{"none", "provider", "clientcert"} {
 					for _, vd := range []bool{false, true} {
 						for _, mx := range []string{"\x00", "", "true", "false", "1", "junk"} {
-							cases = append(cases, c16case{ck, kv[0], kv[1], proto, tl, vd, mx, ""})
+							cases = append(cases, c16case{ck, kv[0], kv[1], proto, tl, vd, mx, "", false})
 						}
 					}
 				}
@@ -68,9 +72,16 @@ func TestC16(t *testing.T) {
 		for _, proto := range []string{"netrpc", "grpc"} {
 			for _, vd := range []bool{false, true} {
 				for _, mx := range []string{"\x00", "true"} {
-					cases = append(cases, c16case{cookieVal, cookieKey, cookieVal, proto, "none", vd, mx, vl})
+					cases = append(cases, c16case{cookieVal, cookieKey, cookieVal, proto, "none", vd, mx, vl, false})
 				}
 			}
+		}
+	}
+	// a plugin whose start-up work takes longer than any internal timer of go-plugin: the line still comes with
+	// a listener that accepts
+	for _, tl := range []string{"none", "clientcert"} {
+		for _, mx := range []string{"\x00", "true", "false"} {
+			cases = append(cases, c16case{cookieVal, cookieKey, cookieVal, "grpc", tl, false, mx, "", true})
 		}
 	}
 	out := &enumResult{Exhaustive: true, Outcomes: map[string]int{}}
@@ -93,6 +104,9 @@ func TestC16(t *testing.T) {
 			}
 			if c.tls == "provider" {
 				pc.TLS, pc.CertPEM, pc.KeyPEM = "provider", certPEM, keyPEM
+			}
+			if c.slowInit {
+				pc.InitDelayMs = 5500
 			}
 			pj, _ := json.Marshal(pc)
 			cmd := exec.Command(vp)
@@ -165,8 +179,8 @@ func TestC16(t *testing.T) {
 					case line = <-lineCh:
 					case err := <-waitCh:
 						bad("exited (%v) instead of serving", err)
-					case <-time.After(10 * time.Second):
-						bad("no handshake line within 10 s")
+					case <-time.After(20 * time.Second):
+						bad("no handshake line within 20 s")
 					}
 					if line != "" {
 						// the announced address must already accept connections
